@@ -877,6 +877,16 @@ def r14_5_noop_identity(ctx: Ctx) -> None:
 # ------------------------------------------------------------------ R06.1 flags and their consumers
 
 
+def _predicate_trivially_true(facts) -> bool:
+    """The path has established `self.predicate.as_trivial() is True` (in any spelling of that test)."""
+    for f in facts:
+        if f.kind == "IS" and f.polarity and "True" in f.args and any("predicate.as_trivial()" in a for a in f.args):
+            return True
+        if f.kind == "EQ" and f.polarity and "True" in f.args and any("predicate.as_trivial()" in a for a in f.args):
+            return True
+    return False
+
+
 def r06_1_flags(ctx: Ctx, rule: str = "R06.1") -> None:
     """Triviality flags are defined exactly, and the short-cuts keyed on them use them the right way round."""
     run, m = ctx.run, ctx.m
@@ -959,7 +969,18 @@ def r06_1_flags(ctx: Ctx, rule: str = "R06.1") -> None:
             lhs_id = has_fact(facts, "TRUTH", (f"{jp[0]}.is_join_identity",), True)
             rhs_id = has_fact(facts, "TRUTH", (f"{jp[1]}.is_join_identity",), True)
             want = True if lhs_id else False if rhs_id else None
-            if want is not None and isinstance(arg, ast.Constant) and arg.value is want:
+            no_pred = _predicate_trivially_true(facts)
+            if want is not None and isinstance(arg, ast.Constant) and arg.value is want and not no_pred:
+                run.fail(
+                    rule,
+                    f"Join._begin_apply:IgnoreOne:path{i}",
+                    "the join is elided because one operand is the join identity, without testing that the join predicate is "
+                    "trivially true (`self.predicate.as_trivial() is True`): `x.join(identity, predicate)` must still filter x",
+                    fi=jb,
+                    node=p.node,
+                    details=describe(p),
+                )
+            elif want is not None and isinstance(arg, ast.Constant) and arg.value is want:
                 run.ok(rule, f"Join._begin_apply:IgnoreOne:path{i}")
             else:
                 run.fail(rule, f"Join._begin_apply:IgnoreOne:path{i}", f"`{src(v)}` ignores the wrong operand (or is not guarded by is_join_identity of the ignored operand)", fi=jb, node=p.node, details=describe(p))
@@ -970,7 +991,17 @@ def r06_1_flags(ctx: Ctx, rule: str = "R06.1") -> None:
         if p.outcome == "return" and isinstance(v, ast.Name):
             facts = path_facts(p)
             other = jq[1] if v.id == jq[0] else jq[0]
-            if has_fact(facts, "TRUTH", (f"{other}.is_join_identity",), True):
+            if has_fact(facts, "TRUTH", (f"{other}.is_join_identity",), True) and not _predicate_trivially_true(facts):
+                run.fail(
+                    rule,
+                    f"Join._finish_apply:elide:path{i}",
+                    f"the join is replaced by `{v.id}` because `{other}` is the join identity, without testing that the join predicate is "
+                    "trivially true: the predicate is silently dropped",
+                    fi=jf,
+                    node=p.node,
+                    details=describe(p),
+                )
+            elif has_fact(facts, "TRUTH", (f"{other}.is_join_identity",), True):
                 run.ok(rule, f"Join._finish_apply:elide:path{i}")
             else:
                 run.fail(rule, f"Join._finish_apply:elide:path{i}", f"the join is replaced by `{v.id}` although `{other}` was not tested to be a join identity", fi=jf, node=p.node, details=describe(p))
